@@ -27,6 +27,7 @@ import (
 	"sort"
 	"strings"
 	"testing"
+	"time"
 
 	"gorm.io/gorm"
 	"gorm.io/gorm/clause"
@@ -1374,6 +1375,9 @@ func (x *runner) manual(h *gorm.DB, b *Body, opts string) {
 	}
 }
 
+// hangAfter: how long a top-level step may take before it is declared deadlocked (a step takes well under a millisecond).
+const hangAfter = 20 * time.Second
+
 type result struct {
 	viols      []string
 	harnessErr string
@@ -1393,7 +1397,12 @@ func runCase(c Case) result {
 		CreateBatchSize:          c.Cfg.BatchSize,
 		TranslateError:           c.Cfg.Translate,
 	}, NoReturning: c.Cfg.NoReturning})
-	defer d.Close()
+	hung := false
+	defer func() {
+		if !hung {
+			d.Close()
+		}
+	}()
 	x := &runner{c: c, db: d, cur: map[string]int64{}, classes: map[string]bool{}, attrs: map[*gorm.DB]attr{}, sessions: map[sessKey]*gorm.DB{}}
 	if _, err := d.SQL.Exec("CREATE TABLE kv (k TEXT PRIMARY KEY, v INTEGER NOT NULL)"); err != nil {
 		return result{harnessErr: "create table: " + err.Error()}
@@ -1470,8 +1479,10 @@ func runCase(c Case) result {
 				}
 			}
 		}
-		if st.Child != nil && hasOutcome(st.Child, outGoexit) {
-			// a block of this step may end its goroutine: give it one and wait for it
+		if st.Conn || (st.Child != nil && hasOutcome(st.Child, outGoexit)) {
+			// a block of this step may end its goroutine: give it one and wait for it. (Also for
+			// steps inside db.Connection: a transaction left open on the dedicated connection
+			// blocks Conn.Close for ever; the watchdog below turns that into a violation.)
 			done := make(chan struct{})
 			var crashed bool
 			var crash interface{}
@@ -1486,7 +1497,15 @@ func runCase(c Case) result {
 				runTop()
 				ok = true
 			}()
-			<-done
+			select {
+			case <-done:
+			case <-time.After(hangAfter):
+				hung = true
+				x.violate("top-level step %s did not finish within %v: deadlock (a transaction left open on the dedicated connection of db.Connection blocks Conn.Close)", stepString(st), hangAfter)
+			}
+			if hung {
+				break
+			}
 			x.goexit = false
 			if crashed {
 				panic(crash)
@@ -1503,6 +1522,10 @@ func runCase(c Case) result {
 		}
 	}
 
+	if hung {
+		// the stuck goroutine still owns the runner and the database: report and leave both alone
+		return result{viols: append([]string(nil), x.viols...), classes: []string{"run:hung"}}
+	}
 	d.Rec.SetFault(nil)
 	x.fired = false
 	// final contents: through the root handle (which must still work) and directly
@@ -1880,19 +1903,19 @@ func genCase(rt *rapid.T) Case {
 		switch {
 		case r < 65:
 			g.startIdx = []int{-1}
-			c.Top.Steps = append(c.Top.Steps, Step{Op: opBlock, Sess: g.sess(25), Opts: g.opts(), Conn: uniform(rt, "conn", 6) == 0, Child: g.body(1, false)})
+			c.Top.Steps = append(c.Top.Steps, Step{Op: opBlock, Sess: g.sess(25), Opts: g.opts(), Conn: uniform(rt, "conn", 6) == 5, Child: g.body(1, false)})
 		case r < 82:
 			g.startIdx = []int{-1}
-			c.Top.Steps = append(c.Top.Steps, Step{Op: opManual, Sess: g.sess(25), Opts: g.opts(), Conn: uniform(rt, "conn", 6) == 0, Child: g.body(1, true)})
+			c.Top.Steps = append(c.Top.Steps, Step{Op: opManual, Sess: g.sess(25), Opts: g.opts(), Conn: uniform(rt, "conn", 6) == 5, Child: g.body(1, true)})
 		case r < 87:
 			st := g.batchStep()
 			st.Sess = g.sess(25)
-			st.Conn = uniform(rt, "conn", 6) == 0
+			st.Conn = uniform(rt, "conn", 6) == 5
 			c.Top.Steps = append(c.Top.Steps, st)
 		default:
 			st := g.primitive(true)
 			st.Sess = g.sess(25)
-			st.Conn = uniform(rt, "conn", 6) == 0
+			st.Conn = uniform(rt, "conn", 6) == 5
 			c.Top.Steps = append(c.Top.Steps, st)
 		}
 	}
